@@ -3,6 +3,8 @@
   or resurrected.
 -/
 import FocaModel.Proofs.Timers
+import FocaModel.Proofs.Stage
+import FocaModel.Proofs.ErrKinds
 import FocaModel.Props.C08H
 namespace Foca.C13H
 open Foca
@@ -368,6 +370,401 @@ theorem exactly_one_timer_per_enabled_task (E : Env) (k : LoopKind) {s : State} 
 example : ∃ s T, LoopHistory C08H.exEnv .probe s T ∧ s.conn = .connected ∧ effective .probe s T = 1 := by
   refine ⟨_, _, LoopHistory.call (.applyMany [⟨⟨2, 0⟩, 0, .alive⟩] false) ⟨[.idx 0], []⟩ _ _ _
     (LoopHistory.init ⟨1, 0⟩ .none C08H.exCfg) (by intro t h; cases h) rfl (by decide)
+    (by intro t ht; simp [toksOf] at ht), ?_, ?_⟩
+  · decide
+  · decide
+
+/-! ### deadline order -/
+
+/-- outstanding timers, each with the time it is due -/
+abbrev Sched := List (Nat × Timer)
+
+/-- what a call made at time `now` schedules -/
+def schedOf (now : Nat) (eff : List Effect) : Sched :=
+  eff.filterMap (fun e => match e with | .timer after t => some (now + after, t) | _ => none)
+
+theorem schedOf_timers (now : Nat) (eff : List Effect) : (schedOf now eff).map (·.2) = timersOf eff := by
+  induction eff with
+  | nil => rfl
+  | cons e rest ih =>
+    cases e with
+    | send d b => simpa [schedOf, timersOf] using ih
+    | notify n => simpa [schedOf, timersOf] using ih
+    | timer a t => simp only [schedOf, timersOf, List.filterMap_cons, List.map_cons] at ih ⊢; rw [ih]
+
+theorem mem_schedOf {now : Nat} {eff : List Effect} {d : Nat} {t : Timer} (h : (d, t) ∈ schedOf now eff) :
+    ∃ after, Effect.timer after t ∈ eff ∧ d = now + after := by
+  unfold schedOf at h
+  rw [List.mem_filterMap] at h
+  obtain ⟨e, he, hq⟩ := h
+  cases e with
+  | send d b => simp at hq
+  | notify n => simp at hq
+  | timer a t' =>
+    simp only [Option.some.injEq, Prod.mk.injEq] at hq
+    exact ⟨a, by rw [← hq.2]; exact he, hq.1.symm⟩
+
+theorem schedOf_mem {now : Nat} {eff : List Effect} {after : Nat} {t : Timer} (h : Effect.timer after t ∈ eff) :
+    (now + after, t) ∈ schedOf now eff := by
+  unfold schedOf
+  rw [List.mem_filterMap]
+  exact ⟨_, h, rfl⟩
+
+theorem probe_mem_effective {s : State} {T : Sched} {d : Nat} (h : (d, Timer.probe s.token) ∈ T) :
+    0 < effective .probe s (T.map (·.2)) := by
+  unfold effective toksOf
+  rw [List.count_pos_iff]
+  rw [List.mem_filterMap]
+  exact ⟨.probe s.token, List.mem_map.2 ⟨_, h, rfl⟩, rfl⟩
+
+/-- a probe with a target is only ever held by a connected instance -/
+def TargetOk (s : State) : Prop := s.probe.direct ≠ none → s.conn = .connected
+
+/-- while the probe cycle is incomplete, the indirect-probe timer of the round is outstanding and due strictly
+    before every effective probe timer -/
+def StageB (s : State) (T : Sched) : Prop :=
+  s.probe.validate = false →
+    ∃ d' m', (d', Timer.indirect m' s.token) ∈ T ∧ ∀ d, (d, Timer.probe s.token) ∈ T → d' < d
+
+/-- what holds of an instance and its schedule at every point of a history -/
+def TInv (s : State) (T : Sched) : Prop :=
+  s.token = s.epoch % 256 ∧ LoopOk .probe s (T.map (·.2)) ∧ TargetOk s ∧ StageB s T
+
+theorem validate_false {p : Probe} (h : p.validate = false) : p.direct ≠ none ∧ p.reached = false := by
+  have := (C13.validate_only_needs_indirect_stage p)
+  constructor
+  · intro hd
+    have := this.2 (Or.inl hd)
+    rw [h] at this; cases this
+  · cases hr : p.reached with
+    | false => rfl
+    | true =>
+      have := this.2 (Or.inr hr)
+      rw [h] at this; cases this
+
+/-- **One call that is not the delivery of a probe timer** keeps the invariant (`hB`: the witness of `StageB`, unless
+    the call itself completes the stage). -/
+theorem tinv_step_other (E : Env) (s : State) (op : Op) (orc : Oracle) (T : Sched)
+    (hop : ∀ tok, op ≠ .timer (.probe tok))
+    (htok : s.token = s.epoch % 256) (hloop : LoopOk .probe s (T.map (·.2))) (hK : TargetOk s) :
+    match step E s op orc with
+    | .done s' eff _ _ => ∀ now', s'.epoch < s.epoch + 256 → FreshFor .probe (T.map (·.2)) s s' →
+        (s'.probe.validate = false → StageB s T) → TInv s' (T ++ schedOf now' eff)
+    | .stuck _ => True := by
+  have hop' : ∀ t, op = .timer t → t.loopNo ≠ some LoopKind.probe.no := by
+    intro t ht hl
+    cases t with
+    | probe tok => exact hop tok ht
+    | _ => simp [Timer.loopNo, LoopKind.no] at hl
+  have h1 := loop_step_other E .probe s op orc (T.map (·.2)) hop' htok hloop
+  have h2 := stage_step_other E s op orc hop
+  cases hstep : step E s op orc with
+  | stuck x => trivial
+  | done s' eff r left =>
+    rw [hstep] at h1 h2
+    simp only at h1 h2 ⊢
+    intro now' hb hf hB
+    obtain ⟨htok', hloop'⟩ := h1 hb hf
+    obtain ⟨g1, g2, g3⟩ := h2
+    have hmap : (T ++ schedOf now' eff).map (·.2) = T.map (·.2) ++ timersOf eff := by
+      rw [List.map_append, schedOf_timers]
+    refine ⟨htok', by rw [hmap]; exact hloop', ?_, ?_⟩
+    · intro hd
+      rcases g3 with hn | ⟨he, hdir, _⟩
+      · exact absurd hn hd
+      · exact (g2 he).2 (hK (by rw [← hdir]; exact hd))
+    · intro hval
+      obtain ⟨hd', hr'⟩ := validate_false hval
+      rcases g3 with hn | ⟨he, hdir, hreach⟩
+      · exact absurd hn hd'
+      · have htk : s'.token = s.token := (g2 he).1
+        have hconn : s.conn = .connected := hK (by rw [← hdir]; exact hd')
+        have hconn' : s'.conn = .connected := (g2 he).2 hconn
+        have hvs : s.probe.validate = false := by
+          cases hv : s.probe.validate with
+          | false => rfl
+          | true =>
+            rcases (C13.validate_only_needs_indirect_stage s.probe).1 hv with h | h
+            · rw [hdir] at hd'; exact absurd h hd'
+            · rw [hreach h] at hr'; cases hr'
+        obtain ⟨d', m', hw, hlt⟩ := hB hval hvs
+        refine ⟨d', m', by rw [htk]; exact List.mem_append.2 (Or.inl hw), ?_⟩
+        intro d hd
+        rw [htk] at hd
+        rcases List.mem_append.1 hd with hd | hd
+        · exact hlt d hd
+        · exfalso
+          have e1 : effective .probe s (T.map (·.2)) = 1 := by
+            have := hloop.2 rfl
+            rw [this]; unfold connNat; simp [hconn]
+          have e2 : effective .probe s' (T.map (·.2) ++ timersOf eff) = 1 := by
+            have := hloop'.2 rfl
+            rw [this]; unfold connNat; simp [hconn']
+          have e3 : 0 < effective .probe s (timersOf eff) := by
+            rw [← schedOf_timers now' eff]
+            exact probe_mem_effective hd
+          unfold effective at e1 e2 e3
+          rw [toksOf_append, List.count_append, htk] at e2
+          omega
+
+/-- **The delivery of an outstanding probe timer that is due first.** It never returns `NotConnected` nor
+    `IncompleteProbeCycle` — only `Ok`, or the `Encode` error of a send — and, unless a send failed, the invariant
+    holds again, the indirect-probe timer of the new round being due `probe_period − probe_rtt` earlier than the
+    next probe timer. -/
+theorem tinv_fire_probe (E : Env) (s : State) (tok : Nat) (orc : Oracle) (T1 T2 : Sched) (d : Nat)
+    (hinv : TInv s (T1 ++ (d, .probe tok) :: T2)) (hmin : ∀ x ∈ T1 ++ T2, d ≤ x.1)
+    (hcfg : s.cfg.probeRtt < s.cfg.probePeriod) :
+    match step E s (.timer (.probe tok)) orc with
+    | .done s' eff r _ => (r = .ok ∨ r = .err .encode) ∧ (r = .ok → ∀ now', TInv s' (T1 ++ T2 ++ schedOf now' eff))
+    | .stuck _ => True := by
+  obtain ⟨htok, hloop, hK, hB⟩ := hinv
+  have hloop2 : LoopOk .probe s (.probe tok :: (T1 ++ T2).map (·.2)) := by
+    have : (T1 ++ (d, Timer.probe tok) :: T2).map (·.2) = T1.map (·.2) ++ Timer.probe tok :: T2.map (·.2) := by simp
+    rw [this] at hloop
+    unfold LoopOk at *
+    rw [List.map_append, ← effective_middle]
+    exact hloop
+  have herr := outstanding_probe_timer_errors E s tok orc _ hloop2
+  have hstp := loop_step_probe E s tok orc _ htok hloop2
+  by_cases hst : tok = s.token
+  · subst hst
+    -- the cycle is complete: otherwise the indirect timer of the round would be due earlier and still outstanding
+    have hv : s.probe.validate = true := by
+      cases hv : s.probe.validate with
+      | true => rfl
+      | false =>
+        obtain ⟨d', m', hw, hlt⟩ := hB hv
+        have hlt' := hlt d (List.mem_append.2 (Or.inr (List.mem_cons_self ..)))
+        have hw' : (d', Timer.indirect m' s.token) ∈ T1 ++ T2 := by
+          rcases List.mem_append.1 hw with h | h
+          · exact List.mem_append.2 (Or.inl h)
+          · rcases List.mem_cons.1 h with h | h
+            · cases h
+            · exact List.mem_append.2 (Or.inr h)
+        have := hmin _ hw'
+        simp only at this
+        omega
+    have hc : effective .probe s (LoopKind.timer .probe s.token :: (T1 ++ T2).map (·.2)) =
+        1 + effective .probe s ((T1 ++ T2).map (·.2)) := by
+      rw [effective_cons]; simp
+    have hinv2 : effective .probe s (LoopKind.timer .probe s.token :: (T1 ++ T2).map (·.2)) = connNat s := hloop2.2 rfl
+    have hconn : s.conn = .connected := by
+      rw [hc] at hinv2
+      unfold connNat at hinv2
+      by_cases hcn : s.conn = .connected
+      · exact hcn
+      · simp [hcn] at hinv2
+    have hT0 : effective .probe s ((T1 ++ T2).map (·.2)) = 0 := by
+      rw [hc] at hinv2
+      unfold connNat at hinv2
+      rw [if_pos hconn] at hinv2
+      omega
+    have hshape := probeRandomMember_shape E ⟨s, [], orc⟩ hv
+    have hre := probeRandomMember_rearms E ⟨s, [], orc⟩
+    have hht : handleTimer E (.probe s.token) ⟨s, [], orc⟩ = probeRandomMember E ⟨s, [], orc⟩ := by
+      unfold handleTimer
+      simp [hconn]
+    unfold step runOp at herr hstp ⊢
+    simp only [bind_run] at herr hstp ⊢
+    rw [hht] at herr hstp ⊢
+    cases hr : probeRandomMember E ⟨s, [], orc⟩ with
+    | stuck x => trivial
+    | err e c' =>
+      rw [hr] at herr
+      simp only at herr ⊢
+      refine ⟨?_, fun h => by cases h⟩
+      rcases herr with h | h | ⟨_, h⟩
+      · exact Or.inl h
+      · exact Or.inr h
+      · rw [hv] at h; cases h
+    | ok u c' =>
+      rw [hr] at hstp hshape hre
+      simp only [pure_run] at hstp ⊢
+      refine ⟨by simp, fun _ now' => ?_⟩
+      obtain ⟨htok', hloop'⟩ := hstp (by simp)
+      simp only [RoundShape] at hshape
+      obtain ⟨mid, heff, hmid, hind⟩ := hshape
+      simp only [List.nil_append] at heff
+      simp only [ProbeRound] at hre
+      obtain ⟨q1, q2, q3, q4, _⟩ := hre
+      simp only at q1 q2 q3 q4
+      have hmap : (T1 ++ T2 ++ schedOf now' c'.eff).map (·.2) = (T1 ++ T2).map (·.2) ++ timersOf c'.eff := by
+        rw [List.map_append, schedOf_timers]
+      refine ⟨htok', by rw [hmap]; exact hloop', fun _ => by rw [q1]; exact hconn, ?_⟩
+      intro hval
+      obtain ⟨m, hm⟩ := hind hval
+      refine ⟨now' + s.cfg.probeRtt, m, ?_, ?_⟩
+      · rw [q2]
+        refine List.mem_append.2 (Or.inr (schedOf_mem ?_))
+        rw [heff]
+        exact List.mem_append.2 (Or.inl hm)
+      · intro dP hdP
+        rw [q2] at hdP
+        rcases List.mem_append.1 hdP with h | h
+        · exfalso
+          have := probe_mem_effective h
+          omega
+        · obtain ⟨after, hmem, hdq⟩ := mem_schedOf h
+          rw [heff] at hmem
+          rcases List.mem_append.1 hmem with h' | h'
+          · have := hmid _ h'
+            simp [probeTimer] at this
+          · simp only [List.mem_singleton, Effect.timer.injEq] at h'
+            rw [hdq, h'.1]
+            omega
+  · have := C13.stale_timer_is_noop E (.probe tok) tok ⟨s, [], orc⟩ rfl hst
+    unfold step runOp at hstp ⊢
+    simp only [bind_run] at hstp ⊢
+    rw [this] at hstp ⊢
+    simp only [pure_run] at hstp ⊢
+    refine ⟨by simp, fun _ now' => ?_⟩
+    obtain ⟨htok', hloop'⟩ := hstp (by simp)
+    refine ⟨htok', ?_, hK, ?_⟩
+    · simpa [schedOf, timersOf] using hloop'
+    · intro hval
+      obtain ⟨d', m', hw, hlt⟩ := hB hval
+      refine ⟨d', m', ?_, ?_⟩
+      · simp only [schedOf, List.filterMap_nil, List.append_nil]
+        rcases List.mem_append.1 hw with h | h
+        · exact List.mem_append.2 (Or.inl h)
+        · rcases List.mem_cons.1 h with h | h
+          · cases h
+          · exact List.mem_append.2 (Or.inr h)
+      · intro dP hdP
+        simp only [schedOf, List.filterMap_nil, List.append_nil] at hdP
+        apply hlt dP
+        rcases List.mem_append.1 hdP with h | h
+        · exact List.mem_append.2 (Or.inl h)
+        · exact List.mem_append.2 (Or.inr (List.mem_cons_of_mem _ h))
+
+/-- A history of one instance together with the timers it has scheduled and the time each is due. API calls and
+    datagrams happen at any time; the runtime delivers timers **in deadline order, however late**: the timer
+    delivered is due no later than any other outstanding one (ties in any order), each exactly once. Assumed, as
+    in the property: `probe_rtt < probe_period` whenever a probe round starts, fewer than 256 epoch changes per
+    call, the token does not wrap onto an outstanding probe timer, and no send of a delivered timer fails with
+    `Encode` (after such a failure in a probe round the loop is not re-armed). -/
+inductive TimedHistory (E : Env) : State → Sched → Prop
+  | init (id : Id) (pol : Policy) (cfg : Config) : TimedHistory E (State.init id pol cfg) []
+  /-- an API call or a datagram, at time `now` -/
+  | call {s s' : State} {T : Sched} (now : Nat) (op : Op) (orc : Oracle) (eff : List Effect) (r : Res) (left : Oracle) :
+      TimedHistory E s T → (∀ t, op ≠ .timer t) →
+      Foca.step E s op orc = .done s' eff r left →
+      s'.epoch < s.epoch + 256 → FreshFor .probe (T.map (·.2)) s s' →
+      TimedHistory E s' (T ++ schedOf now eff)
+  /-- the timer due first is delivered, at time `now` -/
+  | fire {s s' : State} {T1 T2 : Sched} (now d : Nat) (t : Timer) (orc : Oracle) (eff : List Effect) (r : Res)
+      (left : Oracle) :
+      TimedHistory E s (T1 ++ (d, t) :: T2) → (∀ x ∈ T1 ++ T2, d ≤ x.1) →
+      s.cfg.probeRtt < s.cfg.probePeriod →
+      Foca.step E s (.timer t) orc = .done s' eff r left →
+      s'.epoch < s.epoch + 256 → FreshFor .probe ((T1 ++ T2).map (·.2)) s s' → r ≠ .err .encode →
+      TimedHistory E s' (T1 ++ T2 ++ schedOf now eff)
+
+theorem stageB_remove {s : State} {T1 T2 : Sched} {d : Nat} {t : Timer}
+    (h : StageB s (T1 ++ (d, t) :: T2)) (hne : ∀ m, t ≠ .indirect m s.token) : StageB s (T1 ++ T2) := by
+  intro hval
+  obtain ⟨d', m', hw, hlt⟩ := h hval
+  refine ⟨d', m', ?_, ?_⟩
+  · rcases List.mem_append.1 hw with h1 | h1
+    · exact List.mem_append.2 (Or.inl h1)
+    · rcases List.mem_cons.1 h1 with h1 | h1
+      · exact absurd (Prod.mk.inj h1).2.symm (hne m')
+      · exact List.mem_append.2 (Or.inr h1)
+  · intro dP hdP
+    apply hlt dP
+    rcases List.mem_append.1 hdP with h1 | h1
+    · exact List.mem_append.2 (Or.inl h1)
+    · exact List.mem_append.2 (Or.inr (List.mem_cons_of_mem _ h1))
+
+theorem loopOk_remove_other {s : State} {T1 T2 : Sched} {d : Nat} {t : Timer}
+    (h : LoopOk .probe s ((T1 ++ (d, t) :: T2).map (·.2))) (hne : ∀ tok, t ≠ .probe tok) :
+    LoopOk .probe s ((T1 ++ T2).map (·.2)) := by
+  have hsel : LoopKind.sel .probe t = none := by
+    cases t with
+    | probe tok => exact absurd rfl (hne tok)
+    | _ => rfl
+  have : effective .probe s ((T1 ++ T2).map (·.2)) = effective .probe s ((T1 ++ (d, t) :: T2).map (·.2)) := by
+    simp only [List.map_append, List.map_cons]
+    rw [effective_middle]
+    unfold effective toksOf
+    simp [List.filterMap_cons, hsel]
+  unfold LoopOk at *
+  rw [this]
+  exact h
+
+/-- the invariant holds at every point of a timed history -/
+theorem TimedHistory.inv (E : Env) {s : State} {T : Sched} (h : TimedHistory E s T) : TInv s T := by
+  induction h with
+  | init id pol cfg =>
+    refine ⟨rfl, ?_, ?_, ?_⟩
+    · unfold LoopOk effective connNat toksOf
+      simp [State.init]
+    · intro hd; simp [State.init] at hd
+    · intro hv; simp [State.init, Probe.validate, Gen.probeValidate] at hv
+  | @call s0 s1 T0 now op orc eff r left _ hop hstep hb hf ih =>
+    obtain ⟨htok, hloop, hK, hB⟩ := ih
+    have := tinv_step_other E s0 op orc T0 (fun tok => hop _) htok hloop hK
+    rw [hstep] at this
+    exact this now hb hf (fun _ => hB)
+  | @fire s0 s1 T1 T2 now d t orc eff r left _ hmin hcfg hstep hb hf hne ih =>
+    by_cases hp : ∃ tok, t = .probe tok
+    · obtain ⟨tok, rfl⟩ := hp
+      have := tinv_fire_probe E s0 tok orc T1 T2 d ih hmin hcfg
+      rw [hstep] at this
+      rcases this.1 with hr | hr
+      · exact this.2 hr now
+      · exact absurd hr hne
+    · have hnp : ∀ tok, t ≠ .probe tok := fun tok h => hp ⟨tok, h⟩
+      obtain ⟨htok, hloop, hK, hB⟩ := ih
+      have hloop2 := loopOk_remove_other hloop hnp
+      have := tinv_step_other E s0 (.timer t) orc (T1 ++ T2) (fun tok h => hnp tok (by cases h; rfl)) htok hloop2 hK
+      rw [hstep] at this
+      refine this now hb hf (fun hval => ?_)
+      by_cases hi : ∃ m, t = .indirect m s0.token
+      · obtain ⟨m, rfl⟩ := hi
+        have hdone := indirect_timer_completes_stage E s0 m orc
+        rw [hstep] at hdone
+        have := (C13.validate_only_needs_indirect_stage s1.probe).2 hdone
+        rw [hval] at this
+        cases this
+      · exact stageB_remove hB (fun m h => hi ⟨m, h⟩)
+
+/-- **Deadline order: `handle_timer` never returns `NotConnected` or `IncompleteProbeCycle`.** At any point of any
+    history in which timers are delivered in deadline order — however late, interleaved with any datagrams and API
+    calls — delivering the outstanding timer that is due first returns `Ok`, or the `Encode` error of a send whose
+    header does not fit the packet. (Out of order, `outstanding_probe_timer_errors` bounds the damage:
+    `IncompleteProbeCycle` at most, and the loop is re-armed all the same.) -/
+theorem deadline_order_never_errs (E : Env) {s s' : State} {T1 T2 : Sched} (d : Nat) (t : Timer) (orc : Oracle)
+    (eff : List Effect) (r : Res) (left : Oracle)
+    (h : TimedHistory E s (T1 ++ (d, t) :: T2)) (hmin : ∀ x ∈ T1 ++ T2, d ≤ x.1)
+    (hcfg : s.cfg.probeRtt < s.cfg.probePeriod)
+    (hstep : Foca.step E s (.timer t) orc = .done s' eff r left) : r = .ok ∨ r = .err .encode := by
+  by_cases hp : ∃ tok, t = .probe tok
+  · obtain ⟨tok, rfl⟩ := hp
+    have := tinv_fire_probe E s tok orc T1 T2 d (TimedHistory.inv E h) hmin hcfg
+    rw [hstep] at this
+    exact this.1
+  · have hnp : ∀ tok, t ≠ .probe tok := fun tok h => hp ⟨tok, h⟩
+    have hE := ErrOnly.handleTimer_other E (K := fun e => e = .encode) rfl t hnp
+    unfold Foca.step Foca.runOp at hstep
+    simp only [bind_run] at hstep
+    cases hr : handleTimer E t ⟨s, [], orc⟩ with
+    | stuck x => rw [hr] at hstep; simp at hstep
+    | ok u c' =>
+      rw [hr] at hstep
+      simp only [pure_run, StepOut.done.injEq] at hstep
+      exact Or.inl hstep.2.2.1.symm
+    | err e c' =>
+      rw [hr] at hstep
+      simp only [StepOut.done.injEq] at hstep
+      have := hE.run _ _ _ hr
+      right
+      rw [← hstep.2.2.1, this]
+
+/-- non-vacuity: a member joins at time 5; the probe timer and nothing else is outstanding, due at 5 + probe_period -/
+example : ∃ s T, TimedHistory C08H.exEnv s T ∧ s.conn = .connected ∧ T.length = 1 := by
+  refine ⟨_, _, TimedHistory.call 5 (.applyMany [⟨⟨2, 0⟩, 0, .alive⟩] false) ⟨[.idx 0], []⟩ _ _ _
+    (TimedHistory.init ⟨1, 0⟩ .none C08H.exCfg) (by intro t h; cases h) rfl (by decide)
     (by intro t ht; simp [toksOf] at ht), ?_, ?_⟩
   · decide
   · decide
